@@ -151,4 +151,250 @@ theorem cfgOf_allFinite (finite : Nat → Bool) (sched : List Element) (workers 
       obtain ⟨r, _, sub, i, _, _, rfl⟩ := mem_column ht
       exact hf sub.id
 
+/-! ### every element can end (`Cfg.CanEnd`) for schedules with completed-by, when no element is over-committed -/
+
+/-- the worker `workerOf` names for a physical client that some started worker owns does own it -/
+theorem workerOf_spec (finite : Nat → Bool) (sched : List Element) (workers : List (List Nat)) (c : Nat)
+    (h : ∃ (w : Nat) (rows : List Nat), workers[w]? = some rows ∧ c ∈ rows) :
+    ∃ (rows : List Nat), workers[(cfgOf finite sched workers).workerOf c]? = some rows ∧ c ∈ rows ∧
+      (cfgOf finite sched workers).workerOf c < workers.length := by
+  obtain ⟨w, rows, hw, hc⟩ := h
+  have hex : ∃ x, x ∈ workers ∧ (fun l : List Nat => l.contains c) x = true :=
+    ⟨rows, List.mem_of_getElem? hw, by simpa using hc⟩
+  have hsome : (workers.findIdx? fun l => l.contains c).isSome = true := by
+    rw [List.findIdx?_isSome]
+    simpa using hex
+  obtain ⟨i, hi⟩ := Option.isSome_iff_exists.mp hsome
+  have hspec := List.findIdx?_eq_some_iff_getElem.mp hi
+  obtain ⟨hlt, hp, _⟩ := hspec
+  have hwo : (cfgOf finite sched workers).workerOf c = i := by
+    show (workers.findIdx? fun l => l.contains c).getD 0 = i
+    rw [hi]; rfl
+  rw [hwo]
+  exact ⟨workers[i], List.getElem?_eq_getElem hlt, by simpa using hp, hlt⟩
+
+/-- an element that fits into one column: at most as many logical clients as the race has physical ones -/
+theorem elemCols_single (finite : Nat → Bool) (m : Nat) (el : Element) (rows : List Nat) (hm : m > 0) (ht : el.total ≤ m) :
+    elemCols finite m el rows = [] ∨ elemCols finite m el rows = [column finite m el rows 0] := by
+  unfold elemCols
+  have hn : ncols m el ≤ 1 := by
+    unfold ncols
+    have : (el.total + m - 1) / m < 2 := by
+      rw [Nat.div_lt_iff_lt_mul hm]; omega
+    omega
+  rcases Nat.lt_or_ge (ncols m el) 1 with h0 | h1
+  · have : ncols m el = 0 := by omega
+    left; simp [this]
+  · have : ncols m el = 1 := by omega
+    rw [this]
+    simp only [List.range_one, List.map_cons, List.map_nil, List.filter_cons, List.filter_nil]
+    split
+    · right; rfl
+    · left; rfl
+
+/-- in a one-column element the logical client `idx` is in the (only) column of the worker that owns physical client `idx` -/
+theorem single_column_has (finite : Nat → Bool) (sched : List Element) (workers : List (List Nat)) (e w idx i : Nat)
+    (el : Element) (rows : List Nat) (sub : Sub)
+    (hel : sched[e]? = some el) (hw : workers[w]? = some rows) (hidx : (expand el)[idx]? = some (sub, i))
+    (ht : el.total ≤ maxClients sched) (hr : idx ∈ rows) :
+    (cfgOf finite sched workers).elems w e = [column finite (maxClients sched) el rows 0] ∧
+      (⟨idx, sub.id, finite sub.id, sub.completesParent, sub.anyCompletes⟩ : TaskA) ∈ column finite (maxClients sched) el rows 0 := by
+  have hm := maxClients_pos sched
+  have hlt : idx < el.total := by
+    have h1 : idx < (expand el).length := by
+      rcases Nat.lt_or_ge idx (expand el).length with h | h
+      · exact h
+      · rw [List.getElem?_eq_none_iff.mpr h] at hidx; exact absurd hidx (by simp)
+    have h2 : (expand el).length = el.total := by
+      unfold expand Element.total sumClients
+      induction el.tasks with
+      | nil => rfl
+      | cons s ss ih => simp [List.flatMap_cons, ih]
+    omega
+  have hmem : (⟨idx, sub.id, finite sub.id, sub.completesParent, sub.anyCompletes⟩ : TaskA) ∈
+      column finite (maxClients sched) el rows 0 := by
+    unfold column
+    rw [List.mem_filterMap]
+    refine ⟨idx, hr, ?_⟩
+    simp [hlt, taskEntry, hidx, toTaskA]
+  refine ⟨?_, hmem⟩
+  have hcols : (cfgOf finite sched workers).elems w e = elemCols finite (maxClients sched) el rows := by
+    simp [cfgOf, hw, hel]
+  rw [hcols]
+  rcases elemCols_single finite (maxClients sched) el rows hm ht with h0 | h1
+  · exfalso
+    -- the column is not empty, so it survives the filter
+    have : column finite (maxClients sched) el rows 0 ∈ elemCols finite (maxClients sched) el rows := by
+      unfold elemCols
+      simp only [List.mem_filter, List.mem_map, List.mem_range, Bool.not_eq_eq_eq_not, Bool.not_true,
+        List.isEmpty_eq_false_iff]
+      refine ⟨⟨0, ?_, rfl⟩, List.ne_nil_of_mem hmem⟩
+      unfold ncols
+      rw [Nat.div_pos_iff]
+      omega
+    rw [h0] at this
+    exact absurd this (by simp)
+  · exact h1
+
+/-- a worker whose only column of element `e` holds a finite completing-type task can finish the element on its own -/
+theorem selfEnding_single (finite : Nat → Bool) (sched : List Element) (workers : List (List Nat)) (e w : Nat)
+    (col : List TaskA) (t' : TaskA)
+    (hcols : (cfgOf finite sched workers).elems w e = [col]) (ht' : t' ∈ col)
+    (hc : completingType t' = true) (hf : t'.finite = true) : SelfEnding (cfgOf finite sched workers) w e := by
+  intro c col0 t hcol0 _ _
+  rw [hcols] at hcol0 ⊢
+  cases c with
+  | zero =>
+    simp only [List.getElem?_cons_zero, Option.some.injEq] at hcol0
+    subst hcol0
+    exact ⟨0, col, t', Nat.le_refl _, by simp, ht', hc, hf⟩
+  | succ c => simp at hcol0
+
+/-- what the schedule must look like for the element to be able to end: all its tasks end by themselves, or it fits
+    into one column and has a named completing task that ends by itself, or it fits into one column, is completed by
+    any of its tasks and its first task with clients ends by itself -/
+def ElemCanEnd (finite : Nat → Bool) (m : Nat) (el : Element) : Prop :=
+  (∀ s ∈ el.tasks, finite s.id = true) ∨
+  (el.total ≤ m ∧ ∃ (idx : Nat) (sub : Sub) (i : Nat), (expand el)[idx]? = some (sub, i) ∧ sub.completesParent = true) ∨
+  (el.total ≤ m ∧ ∃ (idx : Nat) (sub : Sub) (i : Nat), (expand el)[idx]? = some (sub, i) ∧ sub.completesParent = false ∧ sub.anyCompletes = true ∧
+    finite sub.id = true)
+
+/-- **the derived configuration can end** — for any schedule in which named completing tasks end by themselves, every
+    element satisfies `ElemCanEnd`, and every physical client is handed to a started worker -/
+theorem cfgOf_canEnd (finite : Nat → Bool) (sched : List Element) (workers : List (List Nat))
+    (hcover : ∀ r, r < maxClients sched → ∃ (w : Nat) (rows : List Nat), workers[w]? = some rows ∧ r ∈ rows)
+    (hcp : ∀ (e : Nat) (el : Element) (s : Sub), sched[e]? = some el → s ∈ el.tasks → s.completesParent = true → finite s.id = true)
+    (hel : ∀ (e : Nat) (el : Element), sched[e]? = some el → ElemCanEnd finite (maxClients sched) el) :
+    (cfgOf finite sched workers).CanEnd := by
+  have hm := maxClients_pos sched
+  refine ⟨?_, ?_⟩
+  · -- named completing tasks are finite
+    intro w e col t hcol ht hcpt
+    simp only [cfgOf] at hcol
+    cases hw : workers[w]? with
+    | none => simp [hw] at hcol
+    | some rows =>
+      cases he : sched[e]? with
+      | none => simp [hw, he] at hcol
+      | some el =>
+        simp only [hw, he] at hcol
+        obtain ⟨k, _, rfl, _⟩ := mem_elemCols hcol
+        obtain ⟨r, _, sub, i, _, hx, rfl⟩ := mem_column ht
+        exact hcp e el sub he (mem_expand hx).1 hcpt
+  · intro e heS
+    have heS' : e < sched.length := by simpa [cfgOf] using heS
+    have he : sched[e]? = some sched[e] := List.getElem?_eq_getElem heS'
+    rcases hel e sched[e] he with hall | ⟨htot, idx, sub, i, hidx, hcpt⟩ | ⟨htot, idx, sub, i, hidx, hncp, hacp, hfin⟩
+    · -- every task ends by itself
+      left
+      intro u _ c col t hcol ht hnf
+      exfalso
+      simp only [cfgOf, he] at hcol
+      cases hw : workers[u]? with
+      | none => simp [hw] at hcol
+      | some rows =>
+        simp only [hw] at hcol
+        have hmemc := List.mem_of_getElem? hcol
+        obtain ⟨k, _, rfl, _⟩ := mem_elemCols hmemc
+        obtain ⟨r, _, sub, i, _, hx, rfl⟩ := mem_column ht
+        have := hall sub (mem_expand hx).1
+        simp [this] at hnf
+    · -- a named completing task
+      right; left
+      have hidxlt : idx < maxClients sched := by
+        have h1 : idx < (expand sched[e]).length := by
+          rcases Nat.lt_or_ge idx (expand sched[e]).length with h | h
+          · exact h
+          · rw [List.getElem?_eq_none_iff.mpr h] at hidx; exact absurd hidx (by simp)
+        have h2 : (expand sched[e]).length = (sched[e]).total := by
+          unfold expand Element.total sumClients
+          induction (sched[e]).tasks with
+          | nil => rfl
+          | cons s ss ih => simp [List.flatMap_cons, ih]
+        omega
+      refine ⟨?_, ?_⟩
+      · -- the list of completing clients is not empty
+        simp only [cfgOf, he]
+        intro hnil
+        unfold completingClients at hnil
+        rw [List.filterMap_eq_nil_iff] at hnil
+        have := hnil ((sub, i), idx) (List.mem_zipIdx_iff_getElem?.mpr hidx)
+        simp [hcpt] at this
+      · intro c hc
+        simp only [cfgOf, he] at hc
+        unfold completingClients at hc
+        rw [List.mem_filterMap] at hc
+        obtain ⟨⟨⟨sub', i'⟩, idx'⟩, hmem, hval⟩ := hc
+        have hget' := List.mem_zipIdx_iff_getElem?.mp hmem
+        simp only at hget' hval
+        split at hval
+        · rename_i hcp'
+          simp only [Option.some.injEq] at hval
+          have hidx'lt : idx' < maxClients sched := by
+            have h1 : idx' < (expand sched[e]).length := by
+              rcases Nat.lt_or_ge idx' (expand sched[e]).length with h | h
+              · exact h
+              · rw [List.getElem?_eq_none_iff.mpr h] at hget'; exact absurd hget' (by simp)
+            have h2 : (expand sched[e]).length = (sched[e]).total := by
+              unfold expand Element.total sumClients
+              induction (sched[e]).tasks with
+              | nil => rfl
+              | cons s ss ih => simp [List.flatMap_cons, ih]
+            omega
+          have hcidx : c = idx' := by rw [← hval]; exact Nat.mod_eq_of_lt hidx'lt
+          subst hcidx
+          obtain ⟨rows, hwr, hcr, hwlt⟩ := workerOf_spec finite sched workers c (hcover c hidx'lt)
+          refine ⟨by simpa [cfgOf] using hwlt, ?_⟩
+          obtain ⟨hcols, hmemt⟩ := single_column_has finite sched workers e _ c i' sched[e] rows sub' he hwr hget' htot hcr
+          exact selfEnding_single finite sched workers e _ _ _ hcols hmemt (by simp [completingType, hcp'])
+            (hcp e sched[e] sub' he (mem_expand hget').1 hcp')
+        · exact absurd hval (by simp)
+    · -- completed by any of its tasks
+      right; right
+      have hidxlt : idx < maxClients sched := by
+        have h1 : idx < (expand sched[e]).length := by
+          rcases Nat.lt_or_ge idx (expand sched[e]).length with h | h
+          · exact h
+          · rw [List.getElem?_eq_none_iff.mpr h] at hidx; exact absurd hidx (by simp)
+        have h2 : (expand sched[e]).length = (sched[e]).total := by
+          unfold expand Element.total sumClients
+          induction (sched[e]).tasks with
+          | nil => rfl
+          | cons s ss ih => simp [List.flatMap_cons, ih]
+        omega
+      obtain ⟨rows, hwr, hcr, hwlt⟩ := workerOf_spec finite sched workers idx (hcover idx hidxlt)
+      refine ⟨(cfgOf finite sched workers).workerOf idx, by simpa [cfgOf] using hwlt, ⟨idx, ?_, ?_⟩, ?_⟩
+      · simp only [cfgOf, he]
+        unfold anyCompletingClients
+        rw [List.mem_filterMap]
+        refine ⟨((sub, i), idx), List.mem_zipIdx_iff_getElem?.mpr hidx, ?_⟩
+        simp [hncp, hacp, Nat.mod_eq_of_lt hidxlt]
+      · show idx ∈ (workers[(cfgOf finite sched workers).workerOf idx]?).getD []
+        rw [hwr]
+        exact hcr
+      · obtain ⟨hcols, hmemt⟩ := single_column_has finite sched workers e _ idx i sched[e] rows sub he hwr hidx htot hcr
+        exact selfEnding_single finite sched workers e _ _ _ hcols hmemt (by simp [completingType, hacp]) hfin
+
+/-- every client `0 … n−1` is handed to a started worker by `calculate_worker_assignments` (C02: `assign_partition`) -/
+theorem workersOf_cover (hosts : List Host) (n : Nat) (hne : hosts ≠ []) (hc : ∀ h ∈ hosts, h.cores > 0) (r : Nat)
+    (hr : r < n) : ∃ (w : Nat) (rows : List Nat), (workersOf hosts n)[w]? = some rows ∧ r ∈ rows := by
+  have hflat : flatClients (assign hosts n) = List.range n := by
+    unfold assign
+    rw [assignFrom_flat _ _ _ _ hc]
+    have hl : hosts.length > 0 := List.length_pos_iff.mpr hne
+    rw [assignRemaining_zero _ _ _ (ceilDiv_mul_ge n hosts.length hl)]
+    simp [List.range_eq_range']
+  have hmem : r ∈ flatClients (assign hosts n) := by rw [hflat]; simpa using hr
+  unfold flatClients at hmem
+  simp only [List.mem_flatten, List.mem_map] at hmem
+  obtain ⟨l, ⟨p, hp, rfl⟩, hrl⟩ := hmem
+  simp only [List.mem_flatten] at hrl
+  obtain ⟨rows, hrows, hrr⟩ := hrl
+  have hin : rows ∈ workersOf hosts n := by
+    unfold workersOf
+    simp only [List.mem_filter, List.mem_flatMap, Bool.not_eq_eq_eq_not, Bool.not_true, List.isEmpty_eq_false_iff]
+    exact ⟨⟨p, hp, hrows⟩, List.ne_nil_of_mem hrr⟩
+  obtain ⟨w, hw⟩ := List.mem_iff_getElem?.mp hin
+  exact ⟨w, rows, hw, hrr⟩
+
 end RaceOfAlloc
